@@ -351,15 +351,16 @@ PROPS['C09'] = dict(
     rule=('randomized multi-core stress of the supported pattern under the Go race detector, one run per worker process (8 runs in quick, 48 in thorough): one packet-loop goroutine '
           '(ReadFrom on the recorder -> Parse -> arp/dhcp4/icmp4/icmp6/ProcessMDNS (+UpdateMDNSName) -> Notify) fed a frame mix over 6 MACs x 12 addresses (IPv4, ARP, IPv6 LLA/GUA, DHCP, RA, mDNS); '
           'a purge goroutine calling the hook VerifPurge(now) with now alternating present / +6 min / +62 min so hosts continuously age, die and are re-created; the real spoof loops of both '
-          'spoofers; a channel drainer; 8-14 API goroutines drawing from FindIP (+row-locked field reads), GetHosts, IPAddrs, FindByMAC, FindMACEntry, PrintTable, Capture, Release, IsCaptured, '
-          'SetDHCPv4IPOffer, DHCPv4IPOffer, arp/icmp6 StartHunt/StopHunt, IsHunting, dhcp MinuteTicker, handler PrintTable, FindRouter; finally Close of handlers and session while traffic flows. '
-          'Per run a different GOMAXPROCS (2/4/16) and a different perturbation vector over the 8 tag-guarded yield points (nothing / Gosched / sleep 50-500 us). Oracles: race-detector reports parsed '
+          'spoofers; a channel drainer; a wire goroutine that collects the transmitted frames and plays the DHCP clients (real DISCOVER/OFFER/REQUEST/ACK handshakes, then renewals, DECLINEs and RELEASEs of the leases that exist); 8-14 API goroutines that work for the whole run, drawing from FindIP (+row-locked field reads), GetHosts, IPAddrs, FindByMAC, FindMACEntry, PrintTable, Capture, Release, IsCaptured, '
+          'SetDHCPv4IPOffer, DHCPv4IPOffer, arp/icmp6/dhcp StartHunt/StopHunt (one goroutine concentrates on hunts of leased addresses), IsHunting, dhcp MinuteTicker, handler PrintTable, FindRouter; finally Close of handlers and session while traffic flows. '
+          'The harness keeps out of the detector\'s way: no shared counter, lock or log writer is touched on the operation path after the first 2 s (statistics phase), the recorder is sharded, half of the runs are silent (library loggers at error level; a quarter each at info / debug), the porcupine history (shared clock) is recorded in every third run only. Per run a different GOMAXPROCS (2/4/16) and a different perturbation vector over the 8 tag-guarded yield points (nothing / Gosched / sleep 50-500 us). Oracles: race-detector reports parsed '
           'from GORACE logs (key = pair of innermost irai/packet frames), process-fatal errors and panics, a progress monitor that cannot be blocked by the operations it watches (no completed operation, or a barrier request not granted, for 25 s AND >= 2 goroutines blocked on locks inside library frames AND < 0.3 s of process CPU in a 3 s window = deadlock, keyed by the nested blocked frames; otherwise inconclusive), C05 '
           'invariants at barriers where all harness goroutines are parked, goroutines still running library code 1.5 s after Close, a deterministic Close/leak check in synctest bubbles, and a porcupine '
           'linearizability check of Capture/Release/IsCaptured and offer accessors on two never-purged MACs. Non-trivial = a completed run; distinct = (GOMAXPROCS, API goroutines, yield vector)'),
     assumptions=['the race detector only sees races that occurred on paths the stress reached', 'harness goroutines follow the documented contract (row lock to read Host/MACEntry fields obtained from FindIP, a single Parse goroutine)',
                  'barriers are skipped after 55 s because the session\'s own minute ticker is an ungated table writer'],
-    min_obs={'quick': {'barriers': 100, 'frames_handled': 10000, 'purges': 2000, 'harness_ops': 100000, 'close_bubbles': 20, 'history_ops_checked': 2000}, 'thorough': {'barriers': 100}},
+    min_obs={'quick': {'barriers': 100, 'frames_handled': 10000, 'purges': 2000, 'harness_ops': 300000, 'close_bubbles': 20, 'history_ops_checked': 2000,
+                      'dhcp_leases_acknowledged_in_stress': 50, 'dhcp_hunts_of_leased_addresses': 20000}, 'thorough': {'barriers': 100, 'dhcp_leases_acknowledged_in_stress': 50}},
     timeout={'quick': 1200, 'thorough': 6*3600},
 )
 META['C09'] = dict(
